@@ -62,7 +62,7 @@ def _case(draw):
                 frags.append(["p", d.pick(PROTECT)])
             else:
                 frags.append(["r", d.pick(RAWFRAGS)])
-        return {"kind": "escape-vs-entity", "preset": preset, "quotes": q, "mode": d.pick(["sq", "rep", "both"]), "frags": frags}
+        return {"kind": "escape-vs-entity", "preset": preset, "quotes": q, "mode": d.pick(["sq", "rep", "both"]), "frags": frags, "late": d.chance(0.25)}
     mode = d.pick(["sq", "rep", "both"])
     k = d.i(0, 11)
     if k >= 10:
@@ -80,7 +80,7 @@ def _case(draw):
         src = gen.any_doc_d(d) + "\n\n" + "".join(d.pick(INL) + d.pick(["", " "]) for _ in range(d.i(1, 5)))
     else:
         src = gen.inline(d, 0, False, 8)
-    return {"kind": "onoff", "preset": preset, "quotes": q, "mode": mode, "src": src, "linkify": d.chance(0.15), "html": d.chance(0.5)}
+    return {"kind": "onoff", "preset": preset, "quotes": q, "mode": mode, "src": src, "linkify": d.chance(0.15), "html": d.chance(0.5), "late": d.chance(0.3)}
 
 
 def strategy(tier: str):
@@ -92,6 +92,7 @@ def build_pair(case):
     out = []
     for typ in (False, True):
         c = C.simple(case["preset"], typographer=typ, quotes=case["quotes"], linkify=bool(case.get("linkify")))
+        c["late"] = bool(case.get("late"))
         if "html" in case:
             c["options"]["html"] = bool(case["html"])
         md = C.build(c)
